@@ -332,6 +332,135 @@ func random(w *tr.W, r *rng.R, cases int, bigCaps bool) {
 	}
 }
 
+// deepNodes parses a forest layout of VerifC05Dump ("F n;(i,k,d,m(...)...)...") and returns the
+// indices of the nodes at depth >= 2 (roots are depth 0), deepest first.
+func deepNodes(layout string) []int {
+	p := strings.IndexByte(layout, ';')
+	if p < 0 {
+		return nil
+	}
+	type nd struct{ idx, depth int }
+	var nodes []nd
+	depth := 0
+	body := layout[p+1:]
+	for i := 0; i < len(body); i++ {
+		switch body[i] {
+		case '(':
+			j := i + 1
+			for j < len(body) && body[j] != ',' {
+				j++
+			}
+			if v, err := strconv.Atoi(body[i+1 : j]); err == nil {
+				nodes = append(nodes, nd{v, depth})
+			}
+			depth++
+		case ')':
+			depth--
+		}
+	}
+	var out []int
+	for d := 64; d >= 2; d-- {
+		for _, n := range nodes {
+			if n.depth == d {
+				out = append(out, n.idx)
+			}
+		}
+	}
+	return out
+}
+
+// thinning: build one big tree (2^k+1 inserts and one Delete), then repeatedly DeleteIndex /
+// decrease grandchildren-and-deeper nodes chosen from the hook layout of a scratch Fibonacci heap
+// (deepest first, never roots or children of roots), with Deletes interleaved to force
+// consolidation while the size shrinks: without cascading cuts the trees get too thin for the
+// maxDegree()-sized table of consolidate.
+func thinning(w *tr.W, r *rng.R, cases int) {
+	for c := 0; c < cases; c++ {
+		k := 3 + c%4
+		cap := 1<<k + 1
+		ord := []string{"min", "max", "sub", "sub3", "rsub"}[r.Intn(5)]
+		sign := 1
+		if ord == "max" || ord == "rsub" {
+			sign = -1
+		}
+		scratch := mk("F", ord, cap)
+		var ops []string
+		alive := true
+		apply := func(op string) {
+			ops = append(ops, op)
+			if !alive {
+				return
+			}
+			defer func() {
+				if recover() != nil {
+					alive = false
+				}
+			}()
+			f := strings.Fields(op)
+			a := func(i int) int { v, _ := strconv.Atoi(f[i]); return v }
+			switch f[0] {
+			case "I":
+				scratch.Insert(a(1), a(2), a(3))
+			case "C":
+				scratch.ChangeKey(a(1), a(2))
+			case "X":
+				scratch.DeleteIndex(a(1))
+			case "D":
+				scratch.Delete()
+			}
+		}
+		perm := make([]int, cap)
+		for i := range perm {
+			perm[i] = i
+		}
+		if c%2 == 1 {
+			for i := cap - 1; i > 0; i-- {
+				j := r.Intn(i + 1)
+				perm[i], perm[j] = perm[j], perm[i]
+			}
+		}
+		for j, i := range perm {
+			apply(fmt.Sprintf("I %d %d %d", i, sign*(100+10*j), j))
+		}
+		apply("D")
+		ops = append(ops, "L")
+		low := 90
+		pDelete := []int{0, 8, 4}[c%3] // per cent of interleaved Deletes
+		for step := 0; alive && step < 4*cap; step++ {
+			deep := deepNodes(heap.VerifC05Dump(scratch))
+			if len(deep) == 0 {
+				if scratch.Size() <= 2 {
+					break
+				}
+				apply("D")
+				continue
+			}
+			i := deep[0]
+			if len(deep) > 1 && r.Chance(1, 4) {
+				i = deep[r.Intn(len(deep))]
+			}
+			if r.Chance(1, 5) {
+				low--
+				apply(fmt.Sprintf("C %d %d", i, sign*low))
+			} else {
+				apply(fmt.Sprintf("X %d", i))
+			}
+			if r.Intn(100) < pDelete {
+				apply("D")
+			}
+			if r.Chance(1, 6) {
+				ops = append(ops, "L", "P")
+			}
+		}
+		ops = append(ops, "V")
+		ops = append(ops, battery(cap, []int{sign * low, 100, -100}, []int{0, 1, 2})...)
+		ops = append(ops, drain(cap)...)
+		for _, impl := range impls {
+			runCase(w, impl, ord, cap, ops)
+		}
+	}
+}
+
 // cascade: fill, one Delete (consolidation builds deep trees), then decrease keys / delete
 // indices of deep nodes so that marks, cascading cuts and promote/demote chains occur.
 func cascade(w *tr.W, r *rng.R, cases int) {
@@ -478,8 +607,10 @@ func main() {
 		r := rng.FromEnv(55)
 		if thorough {
 			cascade(w, r, 8000)
+			thinning(w, rng.FromEnv(5555), 4000)
 		} else {
 			cascade(w, r, 600)
+			thinning(w, rng.FromEnv(5555), 320)
 		}
 	}
 }
